@@ -41,6 +41,8 @@ func main() {
 		params  multiFlag
 	)
 	cpuprof := flag.String("cpuprofile", "", "write cpu profile")
+	var redirects multiFlag
+	flag.Var(&redirects, "redirect", "callee=harnessFunc")
 	flag.Var(&params, "param", "k=v harness parameter")
 	flag.Parse()
 	if *cpuprof != "" {
@@ -62,6 +64,11 @@ func main() {
 	fmt.Fprintf(os.Stderr, "loaded in %v\n", time.Since(t0))
 	e := newEngine(prog, pkg, strings.Fields(*solver))
 	e.maxPaths = *maxP
+	e.redirect = map[string]string{}
+	for _, r := range redirects {
+		kv := strings.SplitN(r, "=", 2)
+		e.redirect[kv[0]] = kv[1]
+	}
 	e.solverFresh = *fresh
 	e.solverInt = *intenc
 	e.deadline = time.Now().Add(*timeout)
